@@ -38,7 +38,8 @@ def make_case(rng, i, tier):
     if target > 0 and length != "empty":
         notes = gen.wf_notes(rng, rng.randint(0, 5), chans=chans, pitches=(60, 62, 64), tmax=target, lmin=1,
                              lmax=max(1, min(40, target)), tend=target)
-    sigmode = rng.choice(["none", "none", "match0", "match_mid", "conflict", "two_equal", "two_diff", "conflict_den"])
+    sigmode = rng.choice(["none", "none", "match0", "match_mid", "conflict", "two_equal", "two_diff", "conflict_den",
+                          "same_tick_conflict_then_match", "same_tick_match_then_conflict"])
     extra = []
     mid = rng.randrange(0, max(1, min(target, cap))) if target > 0 else 0
     other = (num % 16 + 1, den)
@@ -50,6 +51,12 @@ def make_case(rng, i, tier):
         extra.append(["ts", rng.choice([0, mid]), other[0], other[1]])
     elif sigmode == "conflict_den":
         extra.append(["ts", 0, num, DENS[(DENS.index(den) + 1) % len(DENS)]])
+    elif sigmode == "same_tick_conflict_then_match":
+        t0 = rng.choice([0, mid])
+        extra += [["ts", t0, other[0], other[1]], ["ts", t0, num, den]]
+    elif sigmode == "same_tick_match_then_conflict":
+        t0 = rng.choice([0, mid])
+        extra += [["ts", t0, num, den], ["ts", t0, other[0], other[1]]]
     elif sigmode == "two_equal":
         extra += [["ts", 0, num, den], ["ts", mid, num, den]]
     elif sigmode == "two_diff":
